@@ -693,7 +693,13 @@ expr_stmt:
 	testlist_star_expr augassign yield_expr_or_testlist
 	{
 		target := $1
-		setCtx(yylex, target, ast.Store)
+		switch target.(type) {
+		case *ast.Tuple, *ast.List, *ast.Starred:
+			// valid in an assignment but not in an augmented assignment
+			yylex.(*yyLex).SyntaxError("illegal expression for augmented assignment")
+		default:
+			setCtx(yylex, target, ast.Store)
+		}
 		$$ = &ast.AugAssign{StmtBase: ast.StmtBase{Pos: $<pos>$}, Target: target, Op: $2, Value: $3}
 	}
 |	testlist_star_expr equals_yield_expr_or_testlist_star_expr
